@@ -54,6 +54,11 @@ type Packfile struct {
 	onceErr error
 
 	closed atomic.Bool
+
+	// resolving holds the offsets of the delta entries whose base is being
+	// resolved right now (guarded by m). A delta chain that comes back to one
+	// of them is a cycle, which only a corrupt or hostile pack contains.
+	resolving map[int64]struct{}
 }
 
 // NewPackfile returns a packfile representation for the given .pack
@@ -430,6 +435,15 @@ func (p *Packfile) getMemoryObject(oh *ObjectHeader) (plumbing.EncodedObject, er
 
 	case plumbing.REFDeltaObject, plumbing.OFSDeltaObject:
 		var parent plumbing.EncodedObject
+
+		if _, busy := p.resolving[oh.Offset]; busy {
+			return nil, ErrInvalidObject.AddDetails("delta chain loops back to offset %d", oh.Offset)
+		}
+		if p.resolving == nil {
+			p.resolving = make(map[int64]struct{})
+		}
+		p.resolving[oh.Offset] = struct{}{}
+		defer delete(p.resolving, oh.Offset)
 
 		switch oh.Type {
 		case plumbing.REFDeltaObject:
